@@ -172,3 +172,43 @@ Proof.
     + exists (t1 ++ t2). rewrite I5, R5, app_assoc. reflexivity.
     + constructor; auto.
 Qed.
+
+(* ---- C05: panic accounting of a lifetime, for every script ---- *)
+Lemma scope_exit_raised c lifo k w first raised leak :
+  ((first = None /\ raised = 0%nat) \/ ((exists p, first = Some p) /\ raised = 1%nat)) ->
+  let rep := scope_exit c lifo k w first raised leak in
+  r_exit rep <> XAbort -> (r_raised rep <= 1)%nat /\ (r_exit rep <> XFault -> r_unlocked rep = true) /\
+  (first <> None -> r_exit rep <> XFault -> exists p, r_exit rep = XPanic p /\ first = Some p).
+Proof.
+  intros Hfr. unfold scope_exit.
+  destruct ((if lifo then drop_guards else drop_guards_fifo) (c_allp c) k (w_os w) (i_guards (w_inj w))) as [s1 [[]| |]]; cbn [r_exit r_raised r_unlocked]; try congruence.
+  - pose proof (drop_verifs_raised (w_ctr w) (i_verifs (w_inj w)) (match first with Some _ => true | None => false end) raised first) as DV.
+    assert (FP : forall vs p r f, p = true -> let '(_, _, f') := drop_verifs (w_ctr w) vs p r f in f' = f).
+    { induction vs as [|v vs IH]; intros p r f Hp; cbn [drop_verifs]; auto. destruct (_ =? _); [apply IH; auto|]. subst p. apply IH; auto. }
+    specialize (FP (i_verifs (w_inj w)) (match first with Some _ => true | None => false end) raised first).
+    destruct (drop_verifs _ _ _ _ _) as [[pk r'] f']. cbn [r_exit r_raised r_unlocked]. intros _. split; [|split]; auto.
+    + destruct DV as [A B]. destruct Hfr as [[-> ->]|[(p & ->) ->]]; [lia|]. rewrite B by auto. lia.
+    + intros Hn _. destruct first as [p|]; [|congruence]. rewrite (FP eq_refl). eauto.
+  - intros _. split; [|split]; try congruence. destruct Hfr as [[-> ->]|[_ ->]]; lia.
+Qed.
+
+Theorem run_ops_panic_accounting c reset lifo k ops : forall w,
+  let rep := run_ops c reset lifo k w ops in
+  r_exit rep <> XAbort -> (r_raised rep <= 1)%nat /\ (r_exit rep <> XFault -> r_unlocked rep = true).
+Proof.
+  induction ops as [|o ops IH]; intros w; cbn [run_ops].
+  - intros H. pose proof (scope_exit_raised c lifo k w None 0 [] (or_introl (conj eq_refl eq_refl)) H) as (A & B & _). auto.
+  - destruct (step c reset k w o) as [w'|w' p leak|w'].
+    + apply IH.
+    + intros H. pose proof (scope_exit_raised c lifo k w' (Some p) 1 leak (or_intror (conj (ex_intro _ p eq_refl) eq_refl)) H) as (A & B & _). auto.
+    + cbn. intros _. split; [lia|congruence].
+Qed.
+
+(* a refused installation (signature / null / boolean gate) modifies nothing: the os state is the
+   one before the call, and the panic it raises is the one the lifetime ends with *)
+Theorem refusal_before_write c reset k w p ver :
+  match step c reset k w (OpRefuse p ver) with
+  | SPanic w' p' leak => w_os w' = w_os w /\ p' = p /\ leak = [] /\ i_guards (w_inj w') = i_guards (w_inj w)
+  | _ => False end.
+Proof. cbn [step]. destruct (push_ver (w_inj w) (w_ctr w) reset ver) as [j1 c1] eqn:PV. cbn. repeat split; auto.
+  pose proof (push_ver_guards (w_inj w) (w_ctr w) reset ver) as X. rewrite PV in X. exact X. Qed.
